@@ -2,6 +2,7 @@ import Rtcm.Model.WF
 import Rtcm.Gen.Tables
 import Rtcm.Pinned.Sizes
 import Rtcm.Lemmas.Decodable
+import Rtcm.Props.Base
 /-
   C10 — message layouts conform to the published standards and to each other.
   All statements are about the tables regenerated from the current source (`Gen.tables`).
@@ -9,13 +10,9 @@ import Rtcm.Lemmas.Decodable
 namespace Rtcm
 open Rtcm.Gen
 
-abbrev T := Rtcm.Gen.tables
-
-def allDefs : List (Ident × List Item) := T.std ++ T.msm ++ T.igs
-
 /-- every field named is a defined data field, every repeat count / condition refers to a field
     decoded earlier in scope, no malformed node, no attribute laid out twice -/
-theorem C10_all_wf : ∀ e ∈ allDefs, wfDef T e.2 = true := by decide +kernel
+theorem C10_all_wf : ∀ e ∈ allDefs, wfDef T e.2 = true := allDefs_wf
 
 /-- the translator met no table key that is unreachable and no field spec it could not represent -/
 theorem C10_tables_clean : T.badKeys = 0 ∧ T.badFields = 0 ∧ ftreeAgrees T = true := by decide +kernel
